@@ -537,6 +537,10 @@ pub struct ModelResult {
     /// accesses of the main thread inside handle_success that are not ordered with a job's access to the
     /// same item on some interleaving (text, model trace)
     pub scheduler_access_notes: Vec<(String, Vec<String>)>,
+    /// per entry of `violations`: the free set of the exploration that found it (needed to expand the
+    /// trace into a guide for the implementation)
+    #[serde(skip)]
+    pub violation_free: Vec<BTreeSet<usize>>,
 }
 
 impl Instance {
@@ -736,6 +740,7 @@ pub fn explore_free(inst: &Instance, free: &BTreeSet<usize>, max_states: usize, 
             let mut tr = trace_of(&parents, si);
             tr.push("(no action enabled)".into());
             res.violations.push(("stuck: no action is enabled and jobs are pending".into(), tr));
+            res.violation_free.push(free.clone());
         }
         for (t, label, viols) in succ {
             res.transitions += 1;
@@ -752,6 +757,7 @@ pub fn explore_free(inst: &Instance, free: &BTreeSet<usize>, max_states: usize, 
                     }
                 } else if res.violations.len() < 50 {
                     res.violations.push((v, tr));
+                    res.violation_free.push(free.clone());
                 }
             }
             if !index.contains_key(&t) {
@@ -1023,4 +1029,212 @@ impl Instance {
         }
         out
     }
+}
+
+
+// ------------------------------------------------------------------ model traces → implementation (guided replay)
+
+impl Instance {
+    fn normalize_recording(&self, free: &BTreeSet<usize>, s: &mut State, fin: &mut Vec<usize>, batch: &mut Vec<usize>) {
+        let n = self.ids.len();
+        let mut sink = vec![];
+        loop {
+            let mut changed = false;
+            for j in 0..n {
+                if self.kind[j] == Kind::Also || free.contains(&j) {
+                    continue;
+                }
+                if s.st[j] == RUNNING {
+                    self.finish(s, j);
+                    fin.push(j);
+                    changed = true;
+                }
+                if s.st[j] == FINISHED {
+                    self.handle(s, j, &mut sink);
+                    batch.push(j);
+                    changed = true;
+                }
+            }
+            if !changed {
+                break;
+            }
+        }
+    }
+
+    /// Turns a trace of the model (labels as produced by `explore_free`, found with the free set `free`)
+    /// into a guide for the controlled scheduler: the static jobs that the model finishes and handles
+    /// eagerly after a scan become explicit `Finish` steps and members of the next batch; within one
+    /// segment between two scans every `Finish` is moved before the batch of `Handle`s (a task's
+    /// decrements commute with the main thread's `handle_success`, which only changes scheduler state
+    /// that the next scan reads).
+    pub fn guide_of(&self, free: &BTreeSet<usize>, labels: &[String]) -> Result<Vec<crate::Guide>, String> {
+        use crate::Guide;
+        let find = |name: &str| self.ids.iter().position(|i| i == name).ok_or_else(|| format!("unknown job {name} in a model trace"));
+        let mut s = self.initial_state();
+        let (mut fin, mut batch): (Vec<usize>, Vec<usize>) = (vec![], vec![]);
+        self.normalize_recording(free, &mut s, &mut fin, &mut batch);
+        let mut out = vec![];
+        let flush = |out: &mut Vec<Guide>, fin: &mut Vec<usize>, batch: &mut Vec<usize>| {
+            for f in fin.drain(..) {
+                out.push(Guide::Finish(self.ids[f].clone()));
+            }
+            if !batch.is_empty() {
+                out.push(Guide::Batch(batch.drain(..).map(|j| self.ids[j].clone()).collect()));
+            }
+        };
+        let mut sink = vec![];
+        for l in labels {
+            if l.starts_with("Scan launches") {
+                flush(&mut out, &mut fin, &mut batch);
+                let launch = self.launchable(&s);
+                out.push(Guide::Scan(launch.iter().map(|q| self.ids[*q].clone()).collect()));
+                for q in &launch {
+                    s.st[*q] = RUNNING;
+                }
+                s.can_scan = false;
+                self.normalize_recording(free, &mut s, &mut fin, &mut batch);
+            } else if let Some(j) = l.strip_prefix("Finish ") {
+                let j = find(j)?;
+                self.finish(&mut s, j);
+                fin.push(j);
+            } else if let Some(j) = l.strip_prefix("Handle ") {
+                let j = find(j)?;
+                self.handle(&mut s, j, &mut sink);
+                batch.push(j);
+                self.normalize_recording(free, &mut s, &mut fin, &mut batch);
+            } else if l.starts_with('(') {
+                // "(no action enabled)"
+            } else {
+                return Err(format!("unknown model trace label {l}"));
+            }
+        }
+        flush(&mut out, &mut fin, &mut batch);
+        Ok(out)
+    }
+}
+
+#[derive(Debug, Clone, Default, serde::Serialize)]
+pub struct CoverStats {
+    pub states: usize,
+    pub distinct_labels: usize,
+    pub labels_covered: usize,
+    pub traces: usize,
+    pub capped: bool,
+}
+
+/// A set of model traces (label lists, from the initial state) that between them take every distinct
+/// transition label reachable in the exploration with the free set `free` — every `Finish j`, every
+/// `Handle j`, every distinct launch set of a `Scan` — chosen greedily, longest trace first, at most
+/// `max_traces` of them. Breadth-first, so each label is reached by a shortest trace.
+pub fn cover_traces(inst: &Instance, free: &BTreeSet<usize>, max_states: usize, max_traces: usize) -> (Vec<Vec<String>>, CoverStats) {
+    let n = inst.ids.len();
+    let mut sink = vec![];
+    let norm = |s: &mut State, sink: &mut Vec<String>| loop {
+        let mut changed = false;
+        for j in 0..n {
+            if inst.kind[j] == Kind::Also || free.contains(&j) {
+                continue;
+            }
+            if s.st[j] == RUNNING {
+                inst.finish(s, j);
+                changed = true;
+            }
+            if s.st[j] == FINISHED {
+                inst.handle(s, j, sink);
+                changed = true;
+            }
+        }
+        if !changed {
+            break;
+        }
+    };
+    let mut s0 = inst.initial_state();
+    norm(&mut s0, &mut sink);
+    let mut index: HashMap<State, u32> = HashMap::new();
+    let mut parents: Vec<(u32, String)> = vec![(u32::MAX, String::new())];
+    let mut queue: VecDeque<(State, u32)> = VecDeque::new();
+    index.insert(s0.clone(), 0);
+    queue.push_back((s0, 0));
+    // label -> (state it is taken from) for its first (shortest) occurrence
+    let mut first: Vec<(String, u32)> = vec![];
+    let mut seen_label: BTreeSet<String> = BTreeSet::new();
+    let mut stats = CoverStats::default();
+    while let Some((s, si)) = queue.pop_front() {
+        if inst.all_done(&s) {
+            continue;
+        }
+        let mut succ: Vec<(State, String)> = vec![];
+        if s.can_scan {
+            let l = inst.launchable(&s);
+            let mut t = s.clone();
+            for q in &l {
+                t.st[*q] = RUNNING;
+            }
+            t.can_scan = false;
+            norm(&mut t, &mut sink);
+            let names: Vec<&str> = l.iter().map(|q| inst.ids[*q].as_str()).collect();
+            succ.push((t, format!("Scan launches {names:?}")));
+        }
+        for j in free.iter().copied() {
+            if s.st[j] == RUNNING {
+                let mut t = s.clone();
+                inst.finish(&mut t, j);
+                succ.push((t, format!("Finish {}", inst.ids[j])));
+            } else if s.st[j] == FINISHED {
+                let mut t = s.clone();
+                inst.handle(&mut t, j, &mut sink);
+                norm(&mut t, &mut sink);
+                succ.push((t, format!("Handle {}", inst.ids[j])));
+            }
+        }
+        for (t, label) in succ {
+            if seen_label.insert(label.clone()) {
+                first.push((label.clone(), si));
+            }
+            if !index.contains_key(&t) {
+                if index.len() >= max_states {
+                    stats.capped = true;
+                    continue;
+                }
+                let ti = index.len() as u32;
+                index.insert(t.clone(), ti);
+                parents.push((si, label));
+                queue.push_back((t, ti));
+            }
+        }
+    }
+    stats.states = index.len();
+    stats.distinct_labels = first.len();
+    let trace_of = |mut i: u32| {
+        let mut t = vec![];
+        while i != u32::MAX && parents[i as usize].0 != u32::MAX {
+            t.push(parents[i as usize].1.clone());
+            i = parents[i as usize].0;
+        }
+        t.reverse();
+        t
+    };
+    let mut cands: Vec<Vec<String>> = first
+        .iter()
+        .map(|(l, si)| {
+            let mut t = trace_of(*si);
+            t.push(l.clone());
+            t
+        })
+        .collect();
+    cands.sort_by(|a, b| b.len().cmp(&a.len()).then(a.cmp(b)));
+    let mut covered: BTreeSet<String> = BTreeSet::new();
+    let mut out = vec![];
+    for t in cands {
+        if out.len() >= max_traces {
+            break;
+        }
+        if t.iter().any(|l| !covered.contains(l)) {
+            covered.extend(t.iter().cloned());
+            out.push(t);
+        }
+    }
+    stats.labels_covered = covered.len();
+    stats.traces = out.len();
+    (out, stats)
 }
